@@ -6,6 +6,7 @@ mod probe;
 mod runner;
 mod sqlgen;
 mod util;
+mod tuple;
 mod wal;
 mod wire;
 
@@ -18,6 +19,7 @@ fn main() {
     let rest = util::Args(args[1..].to_vec());
     let code = match args[0].as_str() {
         "wal" => wal::main(&rest),
+        "tuple" => tuple::main(&rest),
         "wire" => wire::main(&rest),
         "probe" => probe::main(&rest),
         "db" => dbdrv::main(&rest),
